@@ -85,27 +85,43 @@ func MediaType(ct string) string {
 	return strings.ToLower(strings.TrimSpace(ct))
 }
 
-func unescape(s string) string {
+// unescape is url.QueryUnescape read independently: '+' is a space, %XX a byte; ok = false for a '%'
+// that is not followed by two hex digits.
+func unescape(s string) (string, bool) {
 	var b []byte
 	for i := 0; i < len(s); i++ {
 		switch {
 		case s[i] == '+':
 			b = append(b, ' ')
-		case s[i] == '%' && i+2 < len(s):
-			v, err := strconv.ParseUint(s[i+1:i+3], 16, 8)
-			if err != nil {
-				b = append(b, s[i])
-				continue
+		case s[i] == '%':
+			if i+3 > len(s) || hexVal(s[i+1]) < 0 || hexVal(s[i+2]) < 0 {
+				return "", false
 			}
-			b = append(b, byte(v))
+			b = append(b, byte(hexVal(s[i+1])<<4|hexVal(s[i+2])))
 			i += 2
 		default:
 			b = append(b, s[i])
 		}
 	}
-	return string(b)
+	return string(b), true
 }
 
+func hexVal(c byte) int {
+	switch {
+	case '0' <= c && c <= '9':
+		return int(c - '0')
+	case 'a' <= c && c <= 'f':
+		return int(c-'a') + 10
+	case 'A' <= c && c <= 'F':
+		return int(c-'A') + 10
+	}
+	return -1
+}
+
+// queryOf reads the raw query of the URL the way url.ParseQuery does (what req.URL.Query() gives):
+// pairs are separated by '&'; an empty pair is skipped; a pair containing ';' or an invalid escape is
+// dropped; a pair is split at its FIRST '=' (everything after it, further '=' included, is the value;
+// no '=' means an empty value); both sides are unescaped. With multiplicity, order kept per name.
 func queryOf(u string) []msggen.KV {
 	i := strings.IndexByte(u, '?')
 	if i < 0 || i == len(u)-1 {
@@ -113,14 +129,19 @@ func queryOf(u string) []msggen.KV {
 	}
 	var out []msggen.KV
 	for _, p := range strings.Split(u[i+1:], "&") {
-		if p == "" {
+		if p == "" || strings.Contains(p, ";") {
 			continue
 		}
 		k, v := p, ""
 		if j := strings.IndexByte(p, '='); j >= 0 {
 			k, v = p[:j], p[j+1:]
 		}
-		out = append(out, msggen.KV{K: unescape(k), V: unescape(v)})
+		uk, ok1 := unescape(k)
+		uv, ok2 := unescape(v)
+		if !ok1 || !ok2 {
+			continue
+		}
+		out = append(out, msggen.KV{K: uk, V: uv})
 	}
 	return sortPairs(out)
 }
